@@ -90,6 +90,12 @@ static void check_inv(Ctx& c) {
     CdnsDecoder& d = c.box.d;
     __verif_assert(d.m_buffer <= d.m_p && d.m_p <= d.m_end && d.m_end <= d.m_buffer + BS, "I_dec: m_buffer <= m_p <= m_end <= m_buffer+BUFFER_SIZE");
     __verif_assert(c.in.m_pos <= c.in.m_len, "stream model: pos <= len");
+    // the full representation invariant must be re-established (the inductive step is only valid then): a window that
+    // still holds unread bytes or is completely filled belongs to a stream that delivered it in full
+    size_t e = (size_t)(d.m_end - d.m_buffer), a = (size_t)(d.m_p - d.m_buffer);
+    bool good = c.in.m_state == std::ios_base::goodbit;
+    bool exhausted = c.in.m_pos == c.in.m_len && (c.in.m_state & std::ios_base::failbit);
+    __verif_assert(good || a == e || exhausted, "I_dec: unread window bytes only from a stream that is still good or was read to its end");
 }
 // exactly `consumed` bytes were taken from R and the rest is still there, in order
 static void check_consumed(Ctx& c, size_t consumed) {
@@ -139,6 +145,7 @@ static void check_reserve(Ctx& c) {
     catch (...) { x = X_OTHER; } \
     check_inv(c); \
     __verif_assert(x != X_OTHER, "failure is reported only through std::exception-derived errors (C03)"); \
+    if (x == X_END) __verif_assert(rem_len(c) == 0, "after CdnsDecoderEnd the decoder stays at end of input: no stale window bytes can be served by a later call (C05)"); \
     __verif_observe((uint64_t)x);
 
 // ---- integer-like primitives ---------------------------------------------------------------------
